@@ -37,6 +37,14 @@ Proof. exact parse_is_climb_proof. Qed.
 Theorem chunk_is_climb : forall ts, wf ts -> parse_chunk false ts = as_res (climb ts).
 Proof. exact chunk_is_climb_proof. Qed.
 
+(** The fuel of the entry points (Model.fuel_of, 8 * length + 8) is enough for EVERY token list, well-formed or not,
+    and none of the enum_unwrap!/unwrap() on the modelled path can fail (the operator stack always alternates
+    expression, operator, expression ...; in particular the `_ =>` arm never meets a two-element stack, on which
+    it would spin).  So Err / Unmodelled are the only other outcomes of the model. *)
+Theorem parse_total : forall ts,
+  parse ts <> Fuel /\ parse ts <> Panic /\ parse_chunk false ts <> Fuel /\ parse_chunk false ts <> Panic.
+Proof. exact parse_total_proof. Qed.
+
 (** Lexical part. (1) The prefix/infix decision of Lexer::op_fix is the documented spacing rule, for every token
     category that can precede an operator in an operator expression. (2) When `-` is in prefix position and a
     number follows immediately, the lexer emits ONE literal token whose text starts with '-' (kind IntLit unless
